@@ -139,6 +139,7 @@ func runC16(p *Prog, r *Report) {
 	handshakeValidation(p, r, "C16.6/handshake-validation")
 	c16PipeErrors(p, r)
 	crashSurface(p, r, "C16.12/crash-surface")
+	wsSingleWriterReader(p, r, "C16.27/ws-single-writer")
 	{
 		reach := p.peerDriven()
 		nilSafe(p, r, "C16.25/nil-safe", "on every path driven by a peer (receive goroutines and their callees, handshake/accept, pipe attach/detach)", func(fn *ssa.Function) bool { return reach[fn] })
@@ -492,4 +493,59 @@ func acceptPauseBounded(p *Prog, r *Report, R string) {
 	}
 	r.Count("c16.accept_loops_with_pause_rule", n)
 	r.Floor(R, "c16.accept_loops_with_pause_rule", 1)
+}
+
+// wsSingleWriterReader (C16.27): gorilla's connection supports one concurrent reader and one
+// concurrent writer and panics ("concurrent write to websocket connection") otherwise.  The
+// pipe's Send is the one writer and its Recv the one reader: nothing else in the transport
+// calls a method of *websocket.Conn that writes or reads frames — in particular no ping / pong
+// / close handler installed by the transport writes a data or control frame with
+// WriteMessage/NextWriter from the reader's goroutine, where a peer can trigger it at will
+// while a Send is in progress.
+func wsSingleWriterReader(p *Prog, r *Report, R string) {
+	r.Describe(R, "the websocket connection has one writer (wsPipe.Send) and one reader (wsPipe.Recv): no other function of the transport — a ping, pong or close handler included — calls a frame-writing or frame-reading method of *websocket.Conn, which gorilla answers with a panic when a peer makes the two overlap")
+	writers := map[string]bool{"WriteMessage": true, "NextWriter": true, "WriteJSON": true, "WritePreparedMessage": true}
+	readers := map[string]bool{"ReadMessage": true, "NextReader": true, "ReadJSON": true}
+	n := 0
+	for _, fn := range p.Funcs {
+		if rel, _ := p.FuncRel(fn); rel != "transport/ws" {
+			continue
+		}
+		EachInstr(fn, func(in ssa.Instruction) {
+			c := CallOf(in)
+			if c == nil || c.IsInvoke() {
+				return
+			}
+			sc := c.StaticCallee()
+			if sc == nil || pkgPathOf(sc) != "github.com/gorilla/websocket" || recvTypeName(sc) != "Conn" {
+				return
+			}
+			home := p.FuncName(p.closureHome(fn))
+			isHome := func(want string) bool {
+				if fn.Parent() != nil {
+					return false // a callback runs on whatever goroutine calls it
+				}
+				if home == want {
+					return true
+				}
+				attr := p.attributedTo(home)
+				for _, a := range attr {
+					if a != want {
+						return false
+					}
+				}
+				return len(attr) > 0
+			}
+			switch {
+			case writers[sc.Name()]:
+				n++
+				r.Check(isHome("transport/ws.(*wsPipe).Send"), R, p.FuncName(fn)+"/"+sc.Name(), p.InstrPos(in), "the pipe's Send", "websocket.Conn."+sc.Name()+" is called outside wsPipe.Send (from "+p.FuncName(fn)+"): a second writer; when it overlaps a Send in progress gorilla panics the process — a peer can make it do so")
+			case readers[sc.Name()]:
+				n++
+				r.Check(isHome("transport/ws.(*wsPipe).Recv"), R, p.FuncName(fn)+"/"+sc.Name(), p.InstrPos(in), "the pipe's Recv", "websocket.Conn."+sc.Name()+" is called outside wsPipe.Recv (from "+p.FuncName(fn)+"): a second reader on the connection")
+			}
+		})
+	}
+	r.Count("c16.ws_frame_io_calls", n)
+	r.Floor(R, "c16.ws_frame_io_calls", 2)
 }
